@@ -3,6 +3,7 @@
 package tally
 
 import (
+	"math"
 	"time"
 
 	"github.com/uber-go/tally/v4/internal/verifrt"
@@ -201,4 +202,33 @@ func c11Snapshot(steps int, dup bool) {
 		}
 	}
 	verifrt.Reach("c11.end")
+}
+
+// VerifC11TwoSpecs: two histograms of one test-scope tree with different symbolic bucket sets
+// (which the solver may choose to collide in the bucket cache): each snapshot entry maps its
+// own bounds to its own counts.  Duration buckets: the cache identity is plain integer
+// arithmetic.
+func VerifC11TwoSpecs() {
+	ts := NewTestScope("", nil)
+	max := time.Duration(math.MaxInt64)
+	a, b := time.Duration(verifrt.Int64("bound")), time.Duration(verifrt.Int64("bound"))
+	c, d := time.Duration(verifrt.Int64("bound")), time.Duration(verifrt.Int64("bound"))
+	verifrt.Assume(verifrt.And(verifrt.And(a < b, b < max), verifrt.And(c < d, d < max)))
+	x, y := time.Duration(verifrt.Int64("sample")), time.Duration(verifrt.Int64("sample"))
+	ts.Histogram("h1", DurationBuckets{a, b}).RecordDuration(x)
+	ts.SubScope("s").Histogram("h2", DurationBuckets{c, d}).RecordDuration(y)
+	snap := ts.Snapshot().Histograms()
+	e1, ok1 := snap[KeyForPrefixedStringMap("h1", nil)]
+	e2, ok2 := snap[KeyForPrefixedStringMap("s.h2", nil)]
+	verifrt.Assert("c11.two-specs.entries", ok1 && ok2)
+	if ok1 && ok2 {
+		v1, v2 := e1.Durations(), e2.Durations()
+		verifrt.Assert("c11.two-specs.first-own-bounds-and-counts", verifrt.And(
+			verifrt.And(v1[a] == b2i(x <= a), v1[b] == b2i(verifrt.And(verifrt.Not(x <= a), x <= b))),
+			v1[max] == b2i(verifrt.Not(x <= b))))
+		verifrt.Assert("c11.two-specs.second-own-bounds-and-counts", verifrt.And(
+			verifrt.And(v2[c] == b2i(y <= c), v2[d] == b2i(verifrt.And(verifrt.Not(y <= c), y <= d))),
+			v2[max] == b2i(verifrt.Not(y <= d))))
+	}
+	verifrt.Reach("c11.two-specs.end")
 }
